@@ -605,6 +605,11 @@ func fixedGraphs() []gdesc {
 			{Label: "//q:_lib#go", Deps: []string{"//q:base"}},
 			{Label: "//q:_lib#py", Deps: []string{"//q:other"}},
 			{Label: "//q:base"}, {Label: "//q:other"}}},
+		// rules depending on each other cyclically through a sub-target (targets acyclic): x depends on r, r's own _r#b
+		// depends on x.  `revdeps //q:r` reports x AND r itself (cost 2 through _r#b), at every level but 0 and 1.
+		{RC: true, Targets: []tdesc{t("_r#b", "x"), t("x", "r"), t("r")}},
+		// a sub-target depending on its own rule: deps pays a level for it (the rule is printed), revdeps does not
+		{RC: true, Targets: []tdesc{t("top", "_r#b"), t("_r#b", "r"), t("r", "leaf"), t("leaf")}},
 	}
 }
 
